@@ -10,7 +10,7 @@
    The switch [fixed] selects how a negative index of make_point is resolved:
      false : relative to the capacity-long buffer (the code before fixes/F1.diff)
      true  : relative to the valid prefix          (the specification, and the code after the fix). *)
-From Coq Require Import ZArith List Bool.
+From Coq Require Import ZArith List Bool PrimFloat.
 From AV Require Import lib.Num.
 Import ListNotations.
 
@@ -87,24 +87,24 @@ Section Builder.
   Notation R := (T N).
 
   (* units.py (re-extracted on every run and proved equal in link/C02_Link.v) *)
-  Definition FEET_TO_METERS : R := lit 3048 10000 0x1.381d7dbf487fcbp-2.
-  Definition METERS_TO_FEET : R := lit 328084 100000 0x1.a3f28fd4f4b98p+1.
-  Definition METERS_TO_FL : R := METERS_TO_FEET / lit 100 1 0x1.9p+6.
-  Definition NAUTICAL_MILES_TO_METERS : R := lit 1852 1 0x1.cfp+10.
-  Definition MINUTES_TO_SECONDS : R := lit 60 1 0x1.ep+5.
+  Definition FEET_TO_METERS : R := lit (3048)%Z (10000)%Z (0x1.381d7dbf487fdp-2)%float.
+  Definition METERS_TO_FEET : R := lit (328084)%Z (100000)%Z (0x1.a3f290abb44e5p+1)%float.
+  Definition METERS_TO_FL : R := METERS_TO_FEET / lit (100)%Z (1)%Z (0x1.9p+6)%float.
+  Definition NAUTICAL_MILES_TO_METERS : R := lit (1852)%Z (1)%Z (0x1.cfp+10)%float.
+  Definition MINUTES_TO_SECONDS : R := lit (60)%Z (1)%Z (0x1.ep+5)%float.
 
   (* literals of builders/legacy.py *)
-  Definition c3000 : R := lit 3000 1 0x1.77p+11.
-  Definition c7000 : R := lit 7000 1 0x1.b58p+12.
-  Definition c1823 : R := lit 1823 100 0x1.23ae147ae147bp+4.
-  Definition c005 : R := lit 5 100 0x1.999999999999ap-5.
-  Definition c015 : R := lit 15 100 0x1.3333333333333p-3.
-  Definition c05 : R := lit 5 10 0x1p-1.
-  Definition c180 : R := lit 180 1 0x1.68p+7.
-  Definition c200 : R := lit 200 1 0x1.9p+7.
-  Definition c100 : R := lit 100 1 0x1.9p+6.
-  Definition c30 : R := lit 30 1 0x1.ep+4.
-  Definition c45 : R := lit 45 1 0x1.68p+5.
+  Definition c3000 : R := lit (3000)%Z (1)%Z (0x1.77p+11)%float.
+  Definition c7000 : R := lit (7000)%Z (1)%Z (0x1.b58p+12)%float.
+  Definition c1823 : R := lit (1823)%Z (100)%Z (0x1.23ae147ae147bp+4)%float.
+  Definition c005 : R := lit (5)%Z (100)%Z (0x1.999999999999ap-5)%float.
+  Definition c015 : R := lit (15)%Z (100)%Z (0x1.3333333333333p-3)%float.
+  Definition c05 : R := lit (5)%Z (10)%Z (0x1p-1)%float.
+  Definition c180 : R := lit (180)%Z (1)%Z (0x1.68p+7)%float.
+  Definition c200 : R := lit (200)%Z (1)%Z (0x1.9p+7)%float.
+  Definition c100 : R := lit (100)%Z (1)%Z (0x1.9p+6)%float.
+  Definition c30 : R := lit (30)%Z (1)%Z (0x1.ep+4)%float.
+  Definition c45 : R := lit (45)%Z (1)%Z (0x1.68p+5)%float.
 
   (* one trajectory point: the 14 pointwise base fields *)
   Record pt := mkpt {
@@ -162,6 +162,40 @@ Section Builder.
     end.
 
   (* ---- _fly_level_change: climb and descent ---- *)
+  (* the last point of the phase: appended with the ground speed / heading of the previous segment *)
+  Definition lc_last (alt : R) (p : pt) (a : R * R * R) : pt :=
+    let '(tas, rocd, ff) := a in
+    mkpt alt (alt * METERS_TO_FL) tas rocd (p_mass p) (p_fuel p) (p_dist p) (p_time p)
+         (p_gs p) ff (p_lon p) (p_lat p) (p_az p) (p_head p).
+
+  Definition fwd_tas (a : R * R * R) : R := let '(tas, rocd, _) := a in nsqrt (tas * tas - rocd * rocd).
+  Definition lc_seg_time (delta : R) (a : R * R * R) : R := let '(_, rocd, _) := a in delta / rocd.
+  Definition lc_dist (delta : R) (a : R * R * R) : R := fwd_tas a * lc_seg_time delta a.
+
+  (* the point appended at the start of a segment *)
+  Definition lc_q (alt : R) (p : pt) (a : R * R * R) : pt :=
+    let '(tas, rocd, ff) := a in
+    mkpt alt (alt * METERS_TO_FL) tas rocd (p_mass p) (p_fuel p) (p_dist p) (p_time p)
+         (fwd_tas a) ff (p_lon p) (p_lat p) (p_az p) (p_az p).
+
+  (* segment fuel: burn + acceleration term, clamped at zero *)
+  Definition lc_seg_fuel (delta lhv : R) (p : pt) (a a_end : R * R * R) : R :=
+    let '(tas, _, ff) := a in
+    let '(tas_end, _, _) := a_end in
+    let seg_fuel0 := ff * lc_seg_time delta a in
+    let ke := c05 * p_mass p * (tas_end * tas_end - tas * tas) in
+    let accel := ke / lhv / c015 in
+    let seg_fuel1 := seg_fuel0 + accel in
+    if seg_fuel1 <? zero then zero else seg_fuel1.
+
+  (* the state at the end of the segment *)
+  Definition lc_next (alt delta lhv : R) (p : pt) (a : R * R * R) (g : R * R * R) (a_end : R * R * R) : pt :=
+    let '(tas, rocd, ff) := a in
+    let '(lon, lat, az) := g in
+    let sf := lc_seg_fuel delta lhv p a a_end in
+    mkpt alt (alt * METERS_TO_FL) tas rocd (p_mass p - sf) (p_fuel p - sf)
+         (p_dist p + lc_dist delta a) (p_time p + lc_seg_time delta a) (fwd_tas a) ff lon lat az (p_az p).
+
   Section LevelChange.
     Variable rl : rule.
     Variable lhv : R.
@@ -172,34 +206,19 @@ Section Builder.
       let alt := start_alt + idx * delta in
       match perf kp rl alt (p_mass p) with
       | None => Err EPerf
-      | Some (tas, rocd, ff) =>
+      | Some a =>
         match m with
-        | O =>
-          (* last point: appended with the ground speed / heading of the previous segment *)
-          Ok ([mkpt alt (alt * METERS_TO_FL) tas rocd (p_mass p) (p_fuel p) (p_dist p) (p_time p)
-                    (p_gs p) ff (p_lon p) (p_lat p) (p_az p) (p_head p)], S kp, kg)
+        | O => Ok ([lc_last alt p a], S kp, kg)
         | S m' =>
-          let fwd := nsqrt (tas * tas - rocd * rocd) in
-          let seg_time := delta / rocd in
-          let seg_fuel0 := ff * seg_time in
-          let q := mkpt alt (alt * METERS_TO_FL) tas rocd (p_mass p) (p_fuel p) (p_dist p) (p_time p)
-                        fwd ff (p_lon p) (p_lat p) (p_az p) (p_az p) in            (* appended *)
-          let dist := fwd * seg_time in
-          match track_step kg (p_dist p) dist with
+          match track_step kg (p_dist p) (lc_dist delta a) with
           | None => Err ETrack
-          | Some (lon, lat, az) =>
+          | Some g =>
             match perf (S kp) rl (alt + delta) (p_mass p) with
             | None => Err EPerf
-            | Some (tas_end, _, _) =>
-              let ke := c05 * p_mass p * (tas_end * tas_end - tas * tas) in
-              let accel := ke / lhv / c015 in
-              let seg_fuel1 := seg_fuel0 + accel in
-              let seg_fuel := if seg_fuel1 <? zero then zero else seg_fuel1 in
-              let p' := mkpt alt (alt * METERS_TO_FL) tas rocd (p_mass p - seg_fuel) (p_fuel p - seg_fuel)
-                             (p_dist p + dist) (p_time p + seg_time) fwd ff lon lat az (p_az p) in
-              match lc_loop m' (idx + one) p' (S (S kp)) (S kg) with
+            | Some a_end =>
+              match lc_loop m' (idx + one) (lc_next alt delta lhv p a g a_end) (S (S kp)) (S kg) with
               | Err e => Err e
-              | Ok (l, kp', kg') => Ok (q :: l, kp', kg')
+              | Ok (l, kp', kg') => Ok (lc_q alt p a :: l, kp', kg')
               end
             end
           end
@@ -208,27 +227,32 @@ Section Builder.
   End LevelChange.
 
   (* ---- fly_cruise ---- *)
+  Definition crz_q (p : pt) : pt :=
+    mkpt (p_alt p) (p_fl p) (p_tas p) (p_rocd p) (p_mass p) (p_fuel p) (p_dist p) (p_time p)
+         (p_tas p) (p_ff p) (p_lon p) (p_lat p) (p_az p) (p_az p).
+  Definition crz_next (step : R) (p : pt) (g : R * R * R) (a : R * R * R) : pt :=
+    let '(tas, rocd, ff) := a in
+    let '(lon, lat, az) := g in
+    let seg_time := step / p_tas p in
+    let seg_fuel := ff * seg_time in
+    mkpt (p_alt p) (p_fl p) tas rocd (p_mass p - seg_fuel) (p_fuel p - seg_fuel)
+         (p_dist p + step) (p_time p + seg_time) (p_tas p) ff lon lat az (p_az p).
+
   Section CruiseLoop.
     Variable step : R.
     Fixpoint crz_loop (m : nat) (p : pt) (kp kg : nat) : res (list pt * nat * nat) :=
       match m with
       | O => Ok ([], kp, kg)
       | S m' =>
-        let q := mkpt (p_alt p) (p_fl p) (p_tas p) (p_rocd p) (p_mass p) (p_fuel p) (p_dist p) (p_time p)
-                      (p_tas p) (p_ff p) (p_lon p) (p_lat p) (p_az p) (p_az p) in  (* appended *)
-        let seg_time := step / p_tas p in
         match track_step kg (p_dist p) step with
         | None => Err ETrack
-        | Some (lon, lat, az) =>
+        | Some g =>
           match perf kp Cruise (p_alt p) (p_mass p) with
           | None => Err EPerf
-          | Some (tas, rocd, ff) =>
-            let seg_fuel := ff * seg_time in
-            let p' := mkpt (p_alt p) (p_fl p) tas rocd (p_mass p - seg_fuel) (p_fuel p - seg_fuel)
-                           (p_dist p + step) (p_time p + seg_time) (p_tas p) ff lon lat az (p_az p) in
-            match crz_loop m' p' (S kp) (S kg) with
+          | Some a =>
+            match crz_loop m' (crz_next step p g a) (S kp) (S kg) with
             | Err e => Err e
-            | Ok (l, kp', kg') => Ok (q :: l, kp', kg')
+            | Ok (l, kp', kg') => Ok (crz_q p :: l, kp', kg')
             end
           end
         end
@@ -253,9 +277,16 @@ Section Builder.
   Definition hand (l : list pt) : res pt :=
     match handover pt0 fixed l with Some p => Ok p | None => Err EHandover end.
 
+  (* the cruise phase starts from the handed-over point at the cruise level with rate of climb 0 *)
+  Definition crz_entry (alt : R) (h : pt) : pt :=
+    mkpt alt (alt * METERS_TO_FL) (p_tas h) zero (p_mass h) (p_fuel h) (p_dist h) (p_time h)
+         (p_gs h) (p_ff h) (p_lon h) (p_lat h) (p_az h) (p_head h).
+  Definition start_point (f : flight) (s : sched) (sm tf : R) : pt :=
+    mkpt (s_clm s) zero zero zero sm tf zero zero zero zero (f_o_lon f) (f_o_lat f) (f_az0 f) zero.
+
   (* ---- Builder._fly_iteration (climb, cruise, descent; then the fuel residual) ---- *)
   Definition fly_iteration (f : flight) (s : sched) (sm tf : R) (kp kg : nat) : res (traj * R * nat * nat) :=
-    let p0 := mkpt (s_clm s) zero zero zero sm tf zero zero zero zero (f_o_lon f) (f_o_lat f) (f_az0 f) zero in
+    let p0 := start_point f s sm tf in
     let d_clm := (s_crz s - s_clm s) / nm1 (f_n_clm f) in
     match lc_loop Climb (f_lhv f) (s_clm s) d_clm (Nat.pred (f_n_clm f)) zero p0 kp kg with
     | Err e => Err e
@@ -263,9 +294,7 @@ Section Builder.
       match hand l1 with
       | Err e => Err e
       | Ok h1 =>
-        let alt := s_crz s in
-        let c0 := mkpt alt (alt * METERS_TO_FL) (p_tas h1) zero (p_mass h1) (p_fuel h1) (p_dist h1) (p_time h1)
-                       (p_gs h1) (p_ff h1) (p_lon h1) (p_lat h1) (p_az h1) (p_head h1) in
+        let c0 := crz_entry (s_crz s) h1 in
         let end_dist := f_total f - s_ddist s in
         let step := (end_dist - p_dist h1) / nm1 (f_n_crz f) in
         match crz_loop step (f_n_crz f) c0 kp1 kg1 with
